@@ -53,6 +53,23 @@ func c14sSetup() {
 	})
 }
 
+// vListener is a net.Listener whose Accept is a visible operation of the
+// controlled runtime: the harness hands it sockets it accepted natively.
+type vListener struct {
+	ch   *vrt.Chan[net.Conn]
+	addr net.Addr
+}
+
+func (l *vListener) Accept() (net.Conn, error) {
+	c, ok := l.ch.Recv2("accept")
+	if !ok {
+		return nil, fmt.Errorf("listener closed")
+	}
+	return c, nil
+}
+func (l *vListener) Close() error   { return nil }
+func (l *vListener) Addr() net.Addr { return l.addr }
+
 type c14sParams struct {
 	Conns int
 	Max   int
@@ -98,10 +115,11 @@ func c14sScenario(p c14sParams) *explore.Scenario {
 			})
 			srv = server.New()
 			ctx, cancel := vcontext.WithCancel(vcontext.Background())
-			defer cancel()
-			done := vrt.Make[int]("connDone", p.Conns)
-			started := 0
+			vl := &vListener{ch: vrt.Make[net.Conn]("acceptedSockets", p.Conns), addr: c14sListener.Addr()}
+			loopDone := vrt.Make[struct{}]("listenerLoopDone", 0)
+			vrt.Go("listenerLoop", func() { srv.VerifListenerLoop(ctx, vl); loopDone.Close("done") })
 			var clients sync.WaitGroup
+			started := p.Conns
 			for i := 0; i < p.Conns; i++ {
 				cc, err := net.Dial("tcp", c14sListener.Addr().String())
 				if err != nil {
@@ -129,21 +147,15 @@ func c14sScenario(p c14sParams) *explore.Scenario {
 					}
 					cc.Close()
 				}()
-				// what the accept loop does
-				if srv.VerifLimitExceeded() {
-					sconn.Close()
-					continue
-				}
-				started++
-				vrt.Go("handleConnection", func() {
-					srv.VerifHandleConnection(ctx, sconn)
-					done.Send("done", 1)
-				})
+				vl.ch.Send("socket", sconn) // the real accept loop takes it from here
 			}
-			for i := 0; i < started; i++ {
-				done.Recv("wait")
-			}
+			// let every connection goroutine finish: they all end by themselves because the clients close
+			vrt.Sleep("settle", 30*time.Second)
 			clients.Wait()
+			cancel()
+			vl.ch.Close("close-listener")
+			loopDone.Recv("wait-loop")
+			vrt.Sleep("settle", time.Second)
 			if n := srv.VerifConnections(); n != 0 {
 				viol = fmt.Sprintf("every connection has ended but the server still reports %d open connections", n)
 			}
@@ -169,7 +181,7 @@ func init() {
 		ID:       "C14S",
 		ReportAs: "C14",
 		Level:    "model_checking",
-		Rule: "schedule exploration of the server's real connection accounting: the harness plays the accept loop (limit check, then the real handleConnection in its own goroutine) for 3-4 sockets with MaxConnections 1-2; each socket's SSH client is a native goroutine that " +
+		Rule: "schedule exploration of the server's real connection accounting: the server's real accept loop runs on a listener whose Accept is a visible operation (the harness feeds it natively accepted sockets), with the real handleConnection per socket for 3-4 sockets with MaxConnections 1-2; each socket's SSH client is a native goroutine that " +
 			"hand-shakes (one with bad credentials in some scenarios) and closes; all schedules within 2 deviations of the server-side goroutines (mutex operations of the counter are scheduling points); invariant on every state: reported open connections <= MaxConnections and >= 0; at the end 0",
 		Assumptions: []string{
 			"x/crypto/ssh runs natively inside the controlled goroutines; every native blocking call completes without the help of another controlled goroutine because the client side is free running",
